@@ -434,7 +434,8 @@ reg(_op)
 
 # call forms with a caller-supplied, prefilled result buffer (the methods that honour out=: solve, cholesky)
 def _stale(shape):
-    return 7.25 + numpy.arange(int(numpy.prod(shape)), dtype=float).reshape(shape) / 3
+    # depends on the number of coefficients: a truncated run meets OTHER stale content than the full run
+    return 7.25 + 0.5 * shape[0] + numpy.arange(int(numpy.prod(shape)), dtype=float).reshape(shape) / 3
 
 
 def _gen_outbuf(name):
